@@ -10,7 +10,7 @@ from .common import COMPONENTS_BASE, run_sim, new_sim, finish_outcome, spec_nont
 
 PID = "C02"
 LEVEL = "exploration"
-BUDGET = {"quick": 60000, "thorough": 1500000}
+BUDGET = {"quick": 300000, "thorough": 6000000}
 RULE = (
     "each run draws a swarm configuration and 1..3 co-tenant scenarios: an aggregation (all any sum min max "
     "list tuple set dict sorted reduce nlargest nsmallest), key absent/sync/async, reverse, default, "
